@@ -55,12 +55,12 @@ impl ChannelHandle {
     { unimplemented!() }
     #[verifier::external_body]
     pub fn set_return_handler(&mut self, handler: Option<CrossbeamSender<Return>>) -> (r: Result<()>)
-        requires permitted(old(self).id() as int, ApiEmit::SetReturnHandler(handler)),
+        requires permitted(old(self).id() as int, ApiEmit::SetReturnHandler(handler)), // [C13,C12.listeners_changed_only_on_request]
         ensures final(self).id() == old(self).id(), r is Ok ==> sent(old(self).id() as int, ApiEmit::SetReturnHandler(handler)),
     { unimplemented!() }
     #[verifier::external_body]
     pub fn set_pub_confirm_handler(&mut self, handler: Option<CrossbeamSender<Confirm>>) -> (r: Result<()>)
-        requires permitted(old(self).id() as int, ApiEmit::SetPubConfirmHandler(handler)),
+        requires permitted(old(self).id() as int, ApiEmit::SetPubConfirmHandler(handler)), // [C13,C12.listeners_changed_only_on_request]
         ensures final(self).id() == old(self).id(), r is Ok ==> sent(old(self).id() as int, ApiEmit::SetPubConfirmHandler(handler)),
     { unimplemented!() }
 }
